@@ -176,8 +176,13 @@ def gen_case(rng, malformed=False):
             if rng.random() < 0.15 else []
         geom = gen_tree(rng, surf_ids, refs, allow_compl=do_trcl)
         orig = []
-        if rng.random() < 0.06:
-            orig = [(rng.randint(60, 70), rng.randint(60, 70))]
+        if rng.random() < 0.08:
+            # one or two provenance pairs, all four numbers distinct, so that
+            # "first pair" / "last pair" / "first or second component" differ
+            nums = rng.sample(range(60, 80), 4)
+            orig = [(nums[0], nums[1])]
+            if rng.random() < 0.6:
+                orig.append((nums[2], nums[3]))
         cells[key] = {
             'mat': rng.choice([0, 1, 2, 3]),
             'rho': rng.choice([None, '-1.0', '-2.7', '0.05']),
